@@ -10,6 +10,12 @@ NOTES = (
 NOT_APPLICABLE = {}
 
 CHECKS = {
+    "C20": {
+        "text": "Model-based histories on a generated score (1-3 parts, optional group and repeat) and a performance aligned to it: generated sequences of the read-only entry points named by the property (save_musicxml, save_score_midi in all modes, save_performance_midi, save_match, score/part note arrays and rest arrays with option subsets, compute_pianoroll, all time/signature/clef/measure maps, pretty, unfold_part_maximal/minimal, iter_unfolded_parts, estimate_spelling/voices/key, transpose, len/indexing, iterator creation and single steps, nested loops); after every step the identity fingerprint of score, performance and alignment (every time point, object, attribute and link) must equal the initial one, a repeated call must return an identical result, every live iterator must yield each part once in order, nested loops must visit every pair. Exploration.",
+        "design_ref": "DESIGN.md 4 C20",
+        "note": "Private caches (Part._number_of_staves, _quarter_map) and empty per-class listing buckets created by look-ups are not counted as modifications; estimators/piano roll are skipped for parts without notes and MIDI export for scores without notes (documented errors); one open finding shared with C09 (Segment objects left in the part by unfolding / save_match).",
+        "technique": "property-based testing (Hypothesis): stateful/model-based operation histories with an identity-fingerprint invariant after every step",
+    },
     "C01": {
         "text": "Model-based testing of edit/query histories: generated sequences of add (start, end, both), complete, remove (start/end/both), set_quarter_duration, get_or_add_point and every query (iter_all with cls/start/end/include_subclasses/mode, iter_prev/iter_next, get_point, quarter_durations) over 55 timed-object classes are applied in lock-step to a Part and to a dict-based reference timeline; the complete structural invariant (ordering, links, listings, start/end identity, quarter in force, quarter map) is evaluated after every step, also after an exception. Exploration: thousands of shrunk-on-failure histories, no exhaustiveness claim.",
         "design_ref": "DESIGN.md 4 C01",
